@@ -492,6 +492,68 @@ def mon_try_null_iff(case, lines):
     return None
 
 
-MONITORS = {'try_null_iff': mon_try_null_iff, 'try_blocks': mon_try_blocks, 'fault': mon_fault, 'twice': mon_twice, 'exclusive': mon_exclusive, 'order': mon_order, 'stranded': mon_stranded,
+def mon_reader_refused_by_reader(case, lines):
+    """C02: readers never exclude one another.  The only exclusive acquisition a reader entry (lock_shared,
+    try_lock_shared*, load) may attempt is the drain try-lock made right after it read the pending flag as true.
+    An exclusive try-lock of the wrapper mutex in a reader entry whose flag read was not `true` is a violation;
+    when another reader's shared try-acquisition is refused inside such a window, that refusal is reported."""
+    cap = shcap(case['cfg'])
+    outer = None
+    for l in lines:
+        if len(l) == 5 and l[0] >= 0 and l[1] in (K['TRYLOCK'], K['TRYLOCK_FOR']) + K_S_ACQ:
+            outer = l[2]
+            break
+    if outer is None:
+        return None
+    readers = SHARED_OPS + (LOAD,)
+    # pass 1: the exclusive try-locks made inside reader entries, with the thread's previous event in that call
+    cur, prev, per_op, bogus = {}, {}, {}, set()
+    for i, l in enumerate(lines):
+        if len(l) != 5 or l[0] < 0:
+            continue
+        t, k, o, v, m = l
+        if k == K['INVOKE']:
+            cur[t], prev[t], per_op[t] = v, None, []
+            continue
+        if k in (K['RET'], K['CATCH']):
+            tl = per_op.pop(t, [])
+            if not cap and cur.get(t) == TRY_SH and tl:
+                tl = tl[:-1]          # plain mutex: the last try-lock of try_lock_shared is the handle acquisition itself
+            bogus.update(i2 for i2, ok in tl if not ok)
+            cur.pop(t, None)
+            continue
+        if k == K['TRYLOCK'] and o == outer and cur.get(t) in readers:
+            pk = prev.get(t)
+            per_op[t].append((i, pk is not None and pk[0] == K['LOAD'] and pk[1] == 1))
+        prev[t] = (k, v)
+    for t, tl in per_op.items():      # calls still in progress at the end of the trace
+        bogus.update(i2 for i2, ok in tl if not ok)
+    if not bogus:
+        return None
+    # pass 2: is a shared try-acquisition of another thread refused while such a try-lock is held?
+    holder, cur = None, {}
+    for i, l in enumerate(lines):
+        if len(l) != 5 or l[0] < 0:
+            continue
+        t, k, o, v, m = l
+        if k == K['INVOKE']:
+            cur[t] = v
+        if o != outer:
+            continue
+        if i in bogus and v == 1:
+            holder = (t, i)
+        elif k == K['UNLOCK'] and holder is not None and holder[0] == t:
+            holder = None
+        elif holder is not None and holder[0] != t and v == 0 and cur.get(t) in (TRY_SH, TRY_SH_FOR, TRY_SH_UNTIL) and \
+                (k in (K['TRYLOCK_SH'], K['TRYLOCK_SH_FOR']) or (not cap and k in (K['TRYLOCK'], K['TRYLOCK_FOR']) and i not in bogus)):
+            return ('thread %d: shared try-acquisition refused (null handle) at trace line %d although no writer exists: the mutex '
+                    'was held exclusively only by reader thread %d, which took the exclusive try-lock on entry (line %d) '
+                    'without having read the pending flag as true' % (t, i, holder[0], holder[1]))
+    i = min(bogus)
+    return ('thread %d: exclusive try-lock of the wrapper mutex in a reader entry at trace line %d although the pending flag '
+            'was not read as true: entering readers exclude one another' % (lines[i][0], i))
+
+
+MONITORS = {'reader_refused_by_reader': mon_reader_refused_by_reader, 'try_null_iff': mon_try_null_iff, 'try_blocks': mon_try_blocks, 'fault': mon_fault, 'twice': mon_twice, 'exclusive': mon_exclusive, 'order': mon_order, 'stranded': mon_stranded,
             'lost': mon_lost, 'payload': mon_payload, 'future': mon_future, 'exn': mon_exn, 'lock_leaked': mon_lock_leaked,
             'deadlock': mon_deadlock, 'seq_cst': mon_seq_cst, 'trace': mon_trace}
